@@ -55,3 +55,19 @@ def init_native():
 
 def harness_module(prop):
     return importlib.import_module("vf.harness." + prop.lower())
+
+
+_SETUP_DONE = set()
+
+
+def harness_setup(prop):
+    """optional per-property environment models (symbolic workers only)"""
+    if prop in _SETUP_DONE:
+        return
+    _SETUP_DONE.add(prop)
+    mod = harness_module(prop)
+    f = getattr(mod, "sym_setup", None)
+    if f is not None:
+        import betterproto
+
+        STUBS.extend(f(betterproto))
